@@ -478,6 +478,7 @@ func (s *Scope) provide(ctor interface{}, opts provideOptions) (err error) {
 	if err != nil {
 		return err
 	}
+	defer func() { verifTraceProvide(origScope, s, n, err) }()
 
 	keys, err := s.findAndValidateResults(n.ResultList())
 	if err != nil {
